@@ -12,6 +12,8 @@ pub struct AllocTracker {
 #[derive(Debug)]
 struct AllocTrackerInner {
     bytes_left: AtomicUsize,
+    #[cfg(jxl_oxide_verif)]
+    verif: verif::VerifState,
 }
 
 impl AllocTracker {
@@ -20,6 +22,8 @@ impl AllocTracker {
         Self {
             inner: Arc::new(AllocTrackerInner {
                 bytes_left: AtomicUsize::new(bytes_left),
+                #[cfg(jxl_oxide_verif)]
+                verif: Default::default(),
             }),
         }
     }
@@ -29,6 +33,10 @@ impl AllocTracker {
     /// Returns an error if the allocation exceeds the current limit.
     pub fn alloc<T>(&self, count: usize) -> Result<AllocHandle, crate::OutOfMemory> {
         let bytes = count * std::mem::size_of::<T>();
+        #[cfg(jxl_oxide_verif)]
+        if self.inner.verif.on_alloc_attempt() {
+            return Err(crate::OutOfMemory::new(bytes));
+        }
         let result = self.inner.bytes_left.fetch_update(
             Ordering::Relaxed,
             Ordering::Relaxed,
@@ -38,6 +46,8 @@ impl AllocTracker {
         match result {
             Ok(prev) => {
                 tracing::trace!(bytes, left = prev - bytes, "Created allocation handle");
+                #[cfg(jxl_oxide_verif)]
+                self.inner.verif.on_alloc_ok(bytes);
                 Ok(AllocHandle {
                     bytes,
                     inner: Arc::clone(&self.inner),
@@ -85,6 +95,8 @@ impl Drop for AllocHandle {
     fn drop(&mut self) {
         let bytes = self.bytes;
         let prev = self.inner.bytes_left.fetch_add(bytes, Ordering::Relaxed);
+        #[cfg(jxl_oxide_verif)]
+        self.inner.verif.on_release(bytes);
         tracing::trace!(bytes, left = prev + bytes, "Released allocation handle");
         self.bytes = 0;
     }
@@ -95,6 +107,92 @@ impl AllocHandle {
     pub fn tracker(&self) -> AllocTracker {
         AllocTracker {
             inner: Arc::clone(&self.inner),
+        }
+    }
+}
+
+/// Verification hooks (only with `--cfg jxl_oxide_verif`): allocation counters and a
+/// deterministic "fail the n-th tracked allocation" switch.
+#[cfg(jxl_oxide_verif)]
+mod verif {
+    use std::sync::atomic::{AtomicBool, AtomicUsize, Ordering};
+
+    #[derive(Debug)]
+    pub(super) struct VerifState {
+        attempts: AtomicUsize,
+        outstanding: AtomicUsize,
+        high_water: AtomicUsize,
+        fail_at: AtomicUsize,
+        fail_sticky: AtomicBool,
+        injected: AtomicUsize,
+    }
+
+    impl Default for VerifState {
+        fn default() -> Self {
+            Self {
+                attempts: AtomicUsize::new(0),
+                outstanding: AtomicUsize::new(0),
+                high_water: AtomicUsize::new(0),
+                fail_at: AtomicUsize::new(usize::MAX),
+                fail_sticky: AtomicBool::new(false),
+                injected: AtomicUsize::new(0),
+            }
+        }
+    }
+
+    impl VerifState {
+        /// Returns `true` if this attempt has to fail.
+        pub(super) fn on_alloc_attempt(&self) -> bool {
+            let idx = self.attempts.fetch_add(1, Ordering::SeqCst);
+            let fail_at = self.fail_at.load(Ordering::SeqCst);
+            let fail = idx == fail_at || (self.fail_sticky.load(Ordering::SeqCst) && idx > fail_at && fail_at != usize::MAX);
+            if fail {
+                self.injected.fetch_add(1, Ordering::SeqCst);
+            }
+            fail
+        }
+
+        pub(super) fn on_alloc_ok(&self, bytes: usize) {
+            let now = self.outstanding.fetch_add(bytes, Ordering::SeqCst) + bytes;
+            self.high_water.fetch_max(now, Ordering::SeqCst);
+        }
+
+        pub(super) fn on_release(&self, bytes: usize) {
+            self.outstanding.fetch_sub(bytes, Ordering::SeqCst);
+        }
+    }
+
+    impl super::AllocTracker {
+        /// Number of `alloc` attempts so far.
+        pub fn verif_attempts(&self) -> usize {
+            self.inner.verif.attempts.load(Ordering::SeqCst)
+        }
+
+        /// Bytes currently held by live handles.
+        pub fn verif_outstanding(&self) -> usize {
+            self.inner.verif.outstanding.load(Ordering::SeqCst)
+        }
+
+        /// Maximum of `verif_outstanding` over time.
+        pub fn verif_high_water(&self) -> usize {
+            self.inner.verif.high_water.load(Ordering::SeqCst)
+        }
+
+        /// Number of failures injected so far.
+        pub fn verif_injected(&self) -> usize {
+            self.inner.verif.injected.load(Ordering::SeqCst)
+        }
+
+        /// Bytes left in the budget.
+        pub fn verif_bytes_left(&self) -> usize {
+            self.inner.bytes_left.load(Ordering::SeqCst)
+        }
+
+        /// Makes the attempt with index `idx` (0-based, counted from tracker creation) fail; with
+        /// `sticky`, every later attempt fails too. `None` lifts the fault.
+        pub fn verif_fail_at(&self, idx: Option<usize>, sticky: bool) {
+            self.inner.verif.fail_sticky.store(sticky, Ordering::SeqCst);
+            self.inner.verif.fail_at.store(idx.unwrap_or(usize::MAX), Ordering::SeqCst);
         }
     }
 }
